@@ -147,11 +147,31 @@ func checkC06(e *Env) {
 			return []int{langRot % ref.NLang, (langRot + 3) % ref.NLang, (langRot + 7) % ref.NLang}
 		}
 		send := func(x c06exp) {
-			x.class = classify(x.data, x.steps, x.need)
+			if x.class == "" {
+				x.class = classify(x.data, x.steps, x.need)
+			}
 			emit(&Item{Op: plan.Op{Fn: "new", L: int64(x.lang), N: int64(x.n), Src: &plan.Src{Data: hx(x.data), Steps: x.steps}}, Exp: x})
 		}
 		for _, n := range ref.WordCounts {
 			need := n + n/3
+			// a source that stalls: k bytes, then a long run of (0, nil) reads, then the rest. A
+			// consumer may go on polling (io.ReadFull does) or give up with an error; what it must
+			// not do is give up and return a mnemonic of the partially filled buffer.
+			for _, k := range []int{0, 1, need / 2, need - 1} {
+				for _, z := range []int{64, 99, 100, 101, 128, 256, 1000} {
+					for _, lang := range langsFor()[:map[bool]int{true: 3, false: 1}[e.Thorough()]] {
+						var st []plan.Step
+						if k > 0 {
+							st = append(st, plan.Step{N: k})
+						}
+						for i := 0; i < z; i++ {
+							st = append(st, plan.Step{N: 0})
+						}
+						st = append(st, plan.Step{N: need - k})
+						send(c06exp{n: n, need: need, lang: lang, data: r.Bytes(need + 8), steps: st, class: "either", k: k, kind: "stall of " + itoa(z) + " empty reads, then the remaining bytes", frag: "stall-" + itoa(z)})
+					}
+				}
+			}
 			// failures at every point k
 			for k := 0; k < need; k++ {
 				for ki, kind := range failureKinds {
@@ -431,7 +451,7 @@ func checkC06(e *Env) {
 		"calls_inside_histories": histCalls,
 		"concurrent_calls_on_one_shared_source_judged_by_their_own_goroutine's_reads": concCalls,
 		"calls_on_a_source_that_fails_transiently_and_stays_installed":                transientCalls,
-		"rule":                          "a case is a scripted randomness source (bytes, per-read delivery sizes, failure point, failure kind, error alone or alongside the last bytes) x word count x language; enumerated: every failure point k in 0..4n/3-1 for n in {12,15,18,21,24} x 13 failure kinds (io.EOF, io.ErrUnexpectedEOF, a custom error, EINTR, EAGAIN, *os.PathError, Temporary()/Timeout() errors, os.ErrDeadlineExceeded, io.ErrNoProgress, io.ErrShortBuffer, io.ErrClosedPipe, wrapped EOF; sticky: the source keeps failing) x {alone, alongside} plus plain end of data, each under several fragmentations (one read, 1-byte reads, halves, (k-1)+1, 1+(k-1), zero-length reads interleaved, seeded random compositions); successes under the same fragmentations incl. zero-leading data, and with a garbage collection (finalizers included) completing between the fragments; histories over one source that stays installed, fails transiently and works again; goroutines calling at the same time on one shared source, each call judged by the reads its own goroutine made; all cases non-trivial (the result is compared with the reference encoding of the delivered prefix, or must be (\"\", non-nil error)); distinct by (data, script, n, language)",
+		"rule":                          "a case is a scripted randomness source (bytes, per-read delivery sizes, failure point, failure kind, error alone or alongside the last bytes) x word count x language; enumerated: every failure point k in 0..4n/3-1 for n in {12,15,18,21,24} x 13 failure kinds (io.EOF, io.ErrUnexpectedEOF, a custom error, EINTR, EAGAIN, *os.PathError, Temporary()/Timeout() errors, os.ErrDeadlineExceeded, io.ErrNoProgress, io.ErrShortBuffer, io.ErrClosedPipe, wrapped EOF; sticky: the source keeps failing) x {alone, alongside} plus plain end of data, each under several fragmentations (one read, 1-byte reads, halves, (k-1)+1, 1+(k-1), zero-length reads interleaved, seeded random compositions); stalls (k bytes, then 64..1000 consecutive (0, nil) reads, then the remaining bytes: polling on or giving up with an error are both admitted, a mnemonic of the partly filled buffer is not); successes under the same fragmentations incl. zero-leading data, and with a garbage collection (finalizers included) completing between the fragments; histories over one source that stays installed, fails transiently and works again; goroutines calling at the same time on one shared source, each call judged by the reads its own goroutine made; all cases non-trivial (the result is compared with the reference encoding of the delivered prefix, or must be (\"\", non-nil error)); distinct by (data, script, n, language)",
 		"samples":                       smp.List(),
 		"failure_matrix_cells_covered":  matrix.Len(),
 		"failure_matrix_cells_possible": wantMatrix,
